@@ -187,6 +187,11 @@ def sample_member(r, rng, z=None, tries=40):
   return n_.array(z) if z is not None else None
 
 
+def json_short(t):
+  import json as _j
+  return _j.dumps(C.__dict__.get('strip', lambda v: v)(t), default=str)[:600]
+
+
 def kind_of(r):
   return r['k']
 
@@ -316,8 +321,12 @@ class C18(Prop):
       case.update({'r': r, 'p': G.L(p), '_int': integer and all(x.denominator == 1 for x in p), 'mode': mode})
     elif kind == 'inter':
       n = self.pick_n(rng, tier)
-      r, p, z = G.gen_inter(rng, n)
-      q = rng.random()
+      if n >= 2 and rng.random() < 0.05:
+        r, p, z = G.gen_wedge(rng, n)
+        case['wedge'] = True
+      else:
+        r, p, z = G.gen_inter(rng, n)
+      q = rng.random() if not case.get('wedge') else 1.0
       if q < 0.03:
         p = p + [F(1)]
       elif q < 0.06:
@@ -387,9 +396,14 @@ class C18(Prop):
         form = 'flat+1'; size += 1
       case.update({'tree': t, 'n': n, 'S': S, 'size': size, '_form': form})
     elif kind == 'utils':
-      d = gen.gen_leaf(rng, 'quick', ['Device', 'IDevice2', 'CDevice', 'PVDevice'], with_cbounds=rng.random() < 0.7)
-      p = [dy(rng, -6, 6) for _ in range(d['n'])]
-      case.update({'dev': d, 'p': G.L(p)})
+      if rng.random() < 0.5:
+        t, n = gen.gen_tree(rng, 'quick')
+        P = [[dy(rng, -6, 6) for _ in range(n)] for _ in range(gen.tree_rows(t))]
+        case.update({'tree': t, 'n': n, 'P': [G.L(row) for row in P]})
+      else:
+        d = gen.gen_leaf(rng, 'quick', ['Device', 'IDevice2', 'CDevice', 'PVDevice'], with_cbounds=rng.random() < 0.7)
+        p = [dy(rng, -6, 6) for _ in range(d['n'])]
+        case.update({'dev': d, 'p': G.L(p)})
     return case
 
   def perturbed(self, rng, s):
@@ -559,6 +573,10 @@ class C18(Prop):
     except ValueError:
       return [] if expect_ve else [fail('List', 'raises', desc + ': ValueError for a valid list region and a point of the right shape')]
     except Exception as e:
+      if type(e) is Exception and not expect_ve and any(x['k'] == 'inter' for x in r['rs']):
+        self.bump('dykstra-raised')
+        lines_ok = all(G.violation(sub, (P_exact[k] if r['axis'] == 0 else [row[k] for row in P_exact])) == 0 for k, sub in enumerate(r['rs']))
+        return [fail('List', 'raises', desc + ': every line is a member of its region but project raised at maxiter')] if lines_ok else []
       return [fail('List', 'raises', '%s: project raised %s: %s' % (desc, type(e).__name__, str(e)[:100]))]
     if expect_ve:
       return [fail('List', 'no-raise', desc + ': wrong shape / axis / region length accepted')]
@@ -587,9 +605,16 @@ class C18(Prop):
       allin = allin and G.violation(sub, line_exact) == 0
     far = all(G.violation(sub, (P_exact[k] if r['axis'] == 0 else [row[k] for row in P_exact])) == 0 or
               float(G.violation(sub, (P_exact[k] if r['axis'] == 0 else [row[k] for row in P_exact]))) > 1e-6 for k, sub in enumerate(r['rs']))
-    if far and bool(reg.is_in(pt)) != allin:
+    try:
+      got_in = bool(reg.is_in(pt))
+    except Exception as e:
+      if type(e) is Exception and any(x['k'] == 'inter' for x in r['rs']):
+        got_in = None
+      else:
+        raise
+    if far and got_in is not None and got_in != allin:
       out.append(fail('List', 'is_in' if not case.get('_int') else 'int-dtype-truncation',
-                      '%s: is_in = %s but the point %s a member' % (desc, bool(reg.is_in(pt)), 'is' if allin else 'is not')))
+                      '%s: is_in = %s but the point %s a member' % (desc, got_in, 'is' if allin else 'is not')))
     return out[:3]
 
   def oracle_minter(self, case, rng):
@@ -734,7 +759,77 @@ class C18(Prop):
         row += k
     return out[:3]
 
+  def oracle_utils_tree(self, case, rng):
+    """utils.project on a whole tree (sbounds, label balancing, MF, leaf cbounds / storage constraints): when SLSQP
+    reports success the flow must satisfy the box and every constraint to 1e-6 (leaf cumulative bounds and aggregate
+    bounds are recomputed from the description; the remaining constraints are read through the tree's own closures,
+    which C03/C04/C17 tie to the model), and no box point that satisfies all constraints may be nearer."""
+    n_ = np()
+    dk = C.repo()
+    t = case['tree']; n = case['n']
+    dev = build.build_tree(t)
+    P = build.arr(case['P'])
+    lb, hb = gen.tree_box(t, n)
+    lb = n_.array([float(x) for x in lb]); hb = n_.array([float(x) for x in hb])
+    desc = 'utils.project on tree %s n=%d p=%s' % (json_short(t), n, case['P'])
+    x0 = n_.array(dev.project(n_.zeros(dev.shape)), dtype=float).reshape(-1)   # flat, as solve.step passes it
+    cons = dev.constraints
+    try:
+      x, o = dk.project(P, x0, dev.bounds, cons)
+    except Exception as e:
+      return [fail('utils.project', 'raises', '%s: raised %s: %s' % (desc, type(e).__name__, str(e)[:100]))]
+    if not o.success:
+      self.bump('utils-slsqp-failed')
+      return []
+    self.bump('utils-tree-solved')
+    out = []
+    x = n_.array(x, dtype=float)
+    if x.shape != x0.shape:
+      return [fail('utils.project', 'shape', '%s: result shape %s, start shape %s' % (desc, x.shape, x0.shape))]
+    x = x.reshape(tuple(dev.shape))
+    xf = x.reshape(-1)
+    if ((xf < lb - 1e-6) | (xf > hb + 1e-6)).any():
+      out.append(fail('utils.project', 'out-of-bounds', '%s: result %s violates the bounds' % (desc, xf.tolist())))
+    def cons_ok(y, tol):
+      for c in cons:
+        v = float(n_.array(c['fun'](y.reshape(-1))).reshape(-1)[0])
+        if (c['type'] == 'eq' and abs(v) > tol) or (c['type'] != 'eq' and v < -tol):
+          return False
+      return True
+    if not cons_ok(x, 1e-6):
+      out.append(fail('utils.project', 'infeasible', '%s: result %s violates a constraint of the tree by more than 1e-6' % (desc, xf.tolist())))
+    # independent recomputation of the documented limits
+    row = 0
+    for b in gen.tree_leaves(t):
+      if b['k'] == 'leaf':
+        for c in b['dev'].get('cbs') or []:
+          sm = float(x[row, int(c[2]):int(c[3])].sum())
+          if sm < pf(c[0]) - 1e-6 or sm > pf(c[1]) + 1e-6:
+            out.append(fail('utils.project', 'infeasible', '%s: row %d sums to %.9g over [%s,%s), cumulative bound (%s, %s)' % (desc, row, sm, c[2], c[3], c[0], c[1])))
+        row += 1
+      else:
+        row += len(b['flows'])
+    if t.get('sb') is not None:
+      tot = x.sum(axis=0)
+      for i, (a, b_) in enumerate(t['sb']):
+        if tot[i] < pf(a) - 1e-6 or tot[i] > pf(b_) + 1e-6:
+          out.append(fail('utils.project', 'infeasible', '%s: slot %d totals %.9g, aggregate bound (%s, %s)' % (desc, i, tot[i], a, b_)))
+    has_eq = any(c['type'] == 'eq' for c in cons)
+    if not has_eq and not out:
+      dres = float(((x - P)**2).sum())
+      for _ in range(40):
+        y = (lb + n_.array([rng.random() for _ in range(len(lb))])*(hb - lb)).reshape(x.shape)
+        y = x + rng.choice([1.0, 0.5, 0.1])*(y - x)
+        if cons_ok(y, 0.0):
+          dy_ = float(((y - P)**2).sum())
+          if dres > dy_ + 1e-5*(1 + dy_):
+            out.append(fail('utils.project', 'not-nearest', '%s: result %s at squared distance %.9g, feasible %s at %.9g' % (desc, xf.tolist(), dres, y.reshape(-1).tolist(), dy_)))
+            break
+    return out[:3]
+
   def oracle_utils(self, case, rng):
+    if 'tree' in case:
+      return self.oracle_utils_tree(case, rng)
     n_ = np()
     dk = C.repo()
     d = case['dev']
@@ -866,6 +961,8 @@ PROP.theorems = [
   'DK.C18.box_half_shortcut',
   'DK.C18.dykTest_false_iff',
   'DK.C18.interProj_ok_mem',
+  'DK.C18.lclose_toL_iff',
+  'DK.C18.dykstra_fixed_point_optimal',
   'DK.C18.VRegion.inter_result_isIn',
   'DK.C18.box_half_result_isIn',
   'DK.dist2_le_of_variational',
